@@ -50,8 +50,8 @@ type Case struct {
 	SMTP      string `json:"smtp"`      // "" | greeted | data  (session open at shutdown; only when nothing fails)
 	POP3      string `json:"pop3"`      // "" | auth
 	Early     bool   `json:"early"`     // cancel right after Start, without waiting for ready / the failure
-	// Busy: the idle timeouts are 400 ms and the open sessions keep talking (a command or a
-	// line of data every 100 ms) for 1.2 s after shutdown was requested before they finish.
+	// Busy: the idle timeouts are 1 s and the open sessions keep talking (a command every
+	// 100 ms) for 1.6 s after shutdown was requested before they finish.
 	Busy bool `json:"busy,omitempty"`
 	// BusyPOP3: with Busy and both sessions open, the SMTP session quits right after shutdown was
 	// requested so that the sequence reaches the POP3 drain while the POP3 session is still active.
@@ -79,7 +79,7 @@ var prop = hx.Prop[Case]{
 			c.SMTP = rapid.SampledFrom([]string{"", "greeted", "data", "data"}).Draw(t, "smtp")
 			c.POP3 = rapid.SampledFrom([]string{"", "auth"}).Draw(t, "pop3")
 			c.Busy = (c.SMTP != "" || c.POP3 != "") && rapid.IntRange(0, 2).Draw(t, "busy") == 0
-			c.BusyPOP3 = c.Busy && c.POP3 != "" && rapid.Bool().Draw(t, "busypop3")
+			c.BusyPOP3 = c.Busy && c.POP3 != "" && rapid.IntRange(0, 3).Draw(t, "busypop3") > 0
 			if c.Busy && c.SMTP == "data" {
 				// the DATA phase has one deadline for the whole block (it is not re-armed per
 				// line), so a transfer cannot be stretched beyond the timeout; commands can
@@ -92,6 +92,9 @@ var prop = hx.Prop[Case]{
 }
 
 var worldSeq atomic.Int64
+
+// busyTimeout is the idle timeout of the "busy" cases.
+const busyTimeout = time.Second
 
 type cl struct {
 	c  net.Conn
@@ -142,7 +145,7 @@ func run(c Case) *hx.Outcome {
 	}
 	conf.Web.Addr = "127.0.0.1:0"
 	if c.Busy {
-		conf.SMTP.Timeout, conf.POP3.Timeout = 400*time.Millisecond, 400*time.Millisecond
+		conf.SMTP.Timeout, conf.POP3.Timeout = busyTimeout, busyTimeout
 	}
 	conf.Storage.Type = c.Backend
 	conf.Storage.RetentionPeriod = time.Duration(c.Retention) * time.Second
@@ -226,6 +229,7 @@ func run(c Case) *hx.Outcome {
 	}
 	var smtpAddr, pop3Addr string
 	var sc, pc *cl
+	lastTalk := time.Now() // no later than the sessions' first exchange: gaps are over-estimated, never under-estimated
 	if isReady {
 		// readiness is signalled after each listener is bound: the accessors are safe now
 		smtpAddr, pop3Addr = svc.SMTPServer.VerifAddr().String(), svc.POP3Server.VerifAddr().String()
@@ -315,25 +319,61 @@ func run(c Case) *hx.Outcome {
 		sc = nil
 	}
 	if c.Busy && !o.Failed() {
-		// sessions that stay active outlive the idle timeout: the drains have to wait for them
-		for i := 0; i < 12 && !o.Failed(); i++ {
+		// sessions that stay active outlive the idle timeout (1 s): the drains have to wait for
+		// them. The harness measures its own gaps: if it was itself too slow to keep a session
+		// alive (a loaded machine), the case is abandoned, not reported.
+		slow := false
+		lastSMTP, lastPOP3 := lastTalk, lastTalk
+		t0 := time.Now()
+		for time.Since(t0) < 1600*time.Millisecond && !o.Failed() && !slow {
 			time.Sleep(100 * time.Millisecond)
+			at := time.Since(t0).Milliseconds()
 			if sc != nil {
-				if l, err := sc.cmd("NOOP"); err != nil || !strings.HasPrefix(l, "250") {
-					fail("session-cut", "an SMTP session sending NOOP every 100 ms (idle timeout 400 ms) got %q (err %v) %d ms after shutdown was requested", l, err, (i+1)*100)
+				gap := time.Since(lastSMTP)
+				l, err := sc.cmd("NOOP")
+				if err != nil || !strings.HasPrefix(l, "250") {
+					if gap > busyTimeout/2 {
+						slow = true
+						break
+					}
+					fail("session-cut", "an SMTP session sending NOOP every 100 ms (idle timeout %v, %v since its previous command) got %q (err %v) %d ms after shutdown was requested", busyTimeout, gap, l, err, at)
 				}
+				lastSMTP = time.Now()
 				if step.Load() >= 1 {
-					fail("drain-early", "SMTPServer.Drain returned %d ms after shutdown was requested while an active SMTP session is still open", (i+1)*100)
+					fail("drain-early", "SMTPServer.Drain returned %d ms after shutdown was requested while an active SMTP session is still open", at)
 				}
 			}
 			if pc != nil {
-				if l, err := pc.cmd("NOOP"); err != nil || !strings.HasPrefix(l, "+OK") {
-					fail("session-cut", "a POP3 session sending NOOP every 100 ms (idle timeout 400 ms) got %q (err %v) %d ms after shutdown was requested", l, err, (i+1)*100)
+				gap := time.Since(lastPOP3)
+				l, err := pc.cmd("NOOP")
+				if err != nil || !strings.HasPrefix(l, "+OK") {
+					if gap > busyTimeout/2 {
+						slow = true
+						break
+					}
+					fail("session-cut", "a POP3 session sending NOOP every 100 ms (idle timeout %v, %v since its previous command) got %q (err %v) %d ms after shutdown was requested", busyTimeout, gap, l, err, at)
 				}
+				lastPOP3 = time.Now()
 				if step.Load() >= 2 {
-					fail("drain-early", "POP3Server.Drain returned %d ms after shutdown was requested while an active POP3 session is still open", (i+1)*100)
+					fail("drain-early", "POP3Server.Drain returned %d ms after shutdown was requested while an active POP3 session is still open", at)
 				}
 			}
+		}
+		if slow {
+			// let everything end, judge nothing
+			o.Class("busy case abandoned: the harness itself was too slow to keep a session alive")
+			if sc != nil {
+				_ = sc.c.Close()
+			}
+			if pc != nil {
+				_ = pc.c.Close()
+			}
+			select {
+			case <-seqDone:
+			case <-time.After(10 * time.Second):
+			}
+			waitWebDown()
+			return o
 		}
 		o.Class("sessions active beyond the idle timeout")
 	}
